@@ -466,7 +466,7 @@ pub fn judge(case: &Case, k: u64, bytes: &[u8], via: &str) -> Res {
                 return Res::hit(k, ver, len as u32, 1);
             }
             // freshness is the subject of C01 / C09 / C17 only; other properties run their own oracles on the result
-            if !matches!(prop, "C01" | "C09" | "C10" | "C17") {
+            if !matches!(prop, "C01" | "C09" | "C10") {
                 return Res { tag: Res::HIT, key: k, ver, w: len as u32, aux: 2 };
             }
             // the classification aids below parse the whole write log: only the first few reports of a run get them
@@ -1078,12 +1078,143 @@ pub fn exec(case: &Case) {
             let ret = hist::ev("ret", 0, idx as u64, res.tag as u64);
             ST.with(|s| s.borrow_mut().oplog.push(OpRec { client: 0, idx, op: op.clone(), inv, ret, res }));
         }
+        if case.clients.len() > 1 {
+            concurrent_round(&mut h).await;
+        }
         crate::hyboracle::end_of_workload(&mut h).await;
         // everything worth observing has been observed; what remains is the tear-down of the simulated runtime
         crate::run::phase_done();
         h.shutdown(true).await;
         hist::ev("end", 0, 0, 0);
     });
+}
+
+/// One caller of the concurrent round (its own simulated task).
+async fn caller(cache: HCache, case: Case, g: Geo, client: usize, ops: Vec<Op>) {
+    for (idx, op) in ops.iter().enumerate() {
+        let inv = hist::ev("inv", client as u64, idx as u64, 0);
+        let mut logged = op.clone();
+        let res = match op {
+            Op::Fetch { k, yields, fail, .. } => {
+                let (kk, yields, fail) = (*k, *yields, *fail);
+                let ver = fresh_ver();
+                let len = value_len(&g, 1, ver);
+                logged = Op::Fetch { k: kk, ver, w: 1, yields: yields, fail, hold: false };
+                model_register(kk, ver, len, 0, 1);
+                let fut = cache.get_or_fetch(&kk, move || async move {
+                    struct Guard(u64, u32, bool);
+                    impl Drop for Guard {
+                        fn drop(&mut self) {
+                            if !self.2 {
+                                hist::ev("origin_drop", self.0, self.1 as u64, 0);
+                            }
+                        }
+                    }
+                    let mut gd = Guard(kk, ver, false);
+                    hist::ev("origin_start", kk, ver as u64, 0);
+                    for _ in 0..yields {
+                        shuttle::future::yield_now().await;
+                    }
+                    shuttle::thread::yield_now();
+                    gd.2 = true;
+                    hist::ev("origin_done", kk, ver as u64, fail as u64);
+                    if fail { Err(anyhow::anyhow!("origin failed")) } else { Ok(make_value(kk, ver, len, false)) }
+                });
+                hist::ev("registered", client as u64, kk, 1);
+                match fut.await {
+                    Ok(e) => match check_value(e.value()) {
+                        Tagged::Ok { key, ver, len } if key == kk => Res::hit(kk, ver, len as u32, src(e.source())),
+                        _ => {
+                            hist::violation(&case.property, "foreign-value", format!("get_or_fetch of key {kk} returned bytes of another key / garbage"), &[("where", "hybrid".into())]);
+                            Res { tag: Res::BAD, ..Default::default() }
+                        }
+                    },
+                    Err(e) => Res::err(crate::memscn::err_kind(&e)),
+                }
+            }
+            Op::Get { k, .. } => {
+                let fut = cache.get(k);
+                hist::ev("registered", client as u64, *k, 0);
+                match fut.await {
+                    Ok(Some(e)) => match check_value(e.value()) {
+                        Tagged::Ok { key, ver, len } if key == *k => Res::hit(*k, ver, len as u32, src(e.source())),
+                        _ => {
+                            hist::violation(&case.property, "foreign-value", format!("get of key {k} returned bytes of another key / garbage"), &[("where", "hybrid".into())]);
+                            Res { tag: Res::BAD, ..Default::default() }
+                        }
+                    },
+                    Ok(None) => Res::miss(),
+                    Err(e) => Res::err(crate::memscn::err_kind(&e)),
+                }
+            }
+            Op::Insert { k, loc, .. } => {
+                let ver = fresh_ver();
+                let len = value_len(&g, 1, ver);
+                logged = Op::Insert { k: *k, ver, w: 1, loc: *loc, hold: false };
+                model_register(*k, ver, len, 0, 1);
+                drop(cache.insert(*k, make_value(*k, ver, len, false)));
+                Res::unit()
+            }
+            Op::Remove { k } => {
+                cache.remove(k);
+                Res::unit()
+            }
+            Op::Yield { n } => {
+                for _ in 0..*n {
+                    shuttle::future::yield_now().await;
+                }
+                Res::unit()
+            }
+            _ => Res::unit(),
+        };
+        let ret = hist::ev("ret", client as u64, idx as u64, res.tag as u64);
+        ST.with(|s| s.borrow_mut().oplog.push(OpRec { client, idx, op: logged, inv, ret, res }));
+    }
+}
+
+/// Clients 1.. run concurrently against the hybrid cache (C06 / C11 hybrid parts) while the main task plays the
+/// controller: it can hold or throttle the disk lookups, cancel the fetch tasks, and joins every caller.
+async fn concurrent_round(h: &mut Hyb) {
+    let case = h.case.clone();
+    let Some(cache) = h.cache.clone() else { return };
+    let hold = case.get("hold_loads") != 0;
+    if hold {
+        h.ctl.holder.hold();
+        hist::ev("hold", 0, 0, 0);
+    }
+    if case.get("throttle_loads") != 0 {
+        cache.storage().load_throttle_switch().throttle();
+        hist::fault("disk_lookup_throttled");
+    }
+    let tasks_before = Spawner::verif_task_count();
+    let mut handles = vec![];
+    for (i, ops) in case.clients.iter().enumerate().skip(1) {
+        handles.push(shuttle::future::spawn(caller(cache.clone(), case.clone(), h.g.clone(), i, ops.clone())));
+    }
+    for _ in 0..case.get("ctl_yields").max(0) {
+        shuttle::future::yield_now().await;
+    }
+    if case.get("abort_fetch") != 0 {
+        // the runtime cancels the fetch tasks spawned in this round
+        let inv = hist::ev("inv", 0, 9000, 0);
+        hist::fault("fetch_task_cancelled");
+        for t in tasks_before..Spawner::verif_task_count() {
+            Spawner::verif_abort(t);
+        }
+        let ret = hist::ev("ret", 0, 9000, 0);
+        ST.with(|s| s.borrow_mut().oplog.push(OpRec { client: 0, idx: 9000, op: Op::Ctl { what: 1, arg: 0 }, inv, ret, res: Res::unit() }));
+    }
+    if hold {
+        hist::ev("unhold", 0, 0, 0);
+        h.ctl.holder.unhold();
+    }
+    for jh in handles {
+        let _ = jh.await;
+    }
+    if case.get("throttle_loads") != 0 {
+        cache.storage().load_throttle_switch().unthrottle();
+    }
+    hist::ev("round_done", 0, 0, 0);
 }
 
 pub fn oracle(case: &Case) {
